@@ -8,10 +8,14 @@ dirs = sorted(glob.glob("/verif/seeded/C*-?"))
 if args:
     dirs = [d for d in dirs if os.path.basename(d) in args]
 # changes that break the named property only through a route that belongs to another listed property (see DESIGN.md 9.4)
-OTHER_CHECK = {"C07-g": "C14", "C02-h": "C07", "C01-i": "C06"}
+OTHER_CHECK = {"C07-g": "C14", "C02-h": "C07", "C01-i": "C06", "C02-j": "C07"}
 out = {}
 for d in dirs:
     sid = os.path.basename(d)
+    if json.load(open(os.path.join(d, "meta.json"))).get("excluded"):
+        out[sid] = {"excluded": True}
+        print(sid, "EXCLUDED (see meta.json)", flush=True)
+        continue
     cid = OTHER_CHECK.get(sid, sid.split("-")[0])
     cmd = [sys.executable, "/verif/tools/seeded.py", d, "--checks", cid] + (["--skip-validate"] if skip else [])
     t0 = time.time()
